@@ -197,6 +197,7 @@ def run(ctx):
               'well-formed training set, %d time(s), plus a refit of the same object on another dimensionality; '
               'distinct = distinct configuration sequences; non-trivial = the fit was attempted on the real code'
               % (2, dmax, reps))
+  ctx.rule += " Plus the executions of the repository's own test suite recorded by the pytest tracing plugin (one case per test / per estimator object; distinct by test id)."
   ctx.exhaustive = True
   pairs = core.generate(MOD, rs)
   core.judge(ctx, *SPEC, pairs, signature_of)
